@@ -151,17 +151,19 @@ def install(ex):
                 ctx.ex.oblige('model-limit', b_and(ctx.st.guard, z3.UGE(bv(c), 128)), ctx.where, 'non-ASCII char formatted')
                 put(ctx, bufp, z3.Extract(7, 0, bv(c)))
             return
-        if ty == 'u8':
+        if ty in ('u8', 'u16', 'u32', 'u64', 'usize', 'u128'):
             v = ctx.deref(p)
             if isinstance(v, CI):
                 for ch in str(v.v):
                     put(ctx, bufp, CI(ord(ch), 8))
                 return
             v = bv(v)
-            h, t, u = z3.UDiv(v, 100), z3.URem(z3.UDiv(v, 10), 10), z3.URem(v, 10)
-            put(ctx, bufp, h + 48, z3.UGE(v, 100))
-            put(ctx, bufp, t + 48, z3.UGE(v, 10))
-            put(ctx, bufp, u + 48)
+            w = v.size()
+            nd = len(str((1 << w) - 1))
+            for i in reversed(range(nd)):
+                p10 = z3.BitVecVal(10 ** i, w)
+                d = z3.Extract(7, 0, z3.URem(z3.UDiv(v, p10), 10)) + 48
+                put(ctx, bufp, d, True if i == 0 else z3.UGE(v, p10))
             return
         if ty in ('&str', 'str', 'std::string::String'):
             s = as_str(ctx, ctx.deref(p) if ty == '&str' else p)
